@@ -51,6 +51,9 @@ type Config struct {
 	// ones above) - a second, differently configured service whose options must not leak.
 	OtherOpts  *OtherOptions `json:"other_opts,omitempty"`
 	OtherFirst bool          `json:"other_first,omitempty"` // register it before the Bench service
+	// DefaultCompression: no compression option is given for the Bench service at all; Compressions then
+	// states the library default (gzip), which is what the service must behave as configured with.
+	DefaultCompression bool `json:"default_compression,omitempty"`
 }
 
 type OtherOptions struct {
@@ -62,7 +65,11 @@ type OtherOptions struct {
 }
 
 func (o *OtherOptions) options() []vanguard.ServiceOption {
-	so := serviceOptions(Config{Protocols: o.Protocols, Codecs: o.Codecs, Compressions: o.Compressions, MaxMsg: o.MaxMsg})
+	comp := o.Compressions
+	if o.NoCompress {
+		comp = nil // WithNoTargetCompression is then the only compression option this service gets
+	}
+	so := serviceOptions(Config{Protocols: o.Protocols, Codecs: o.Codecs, Compressions: comp, MaxMsg: o.MaxMsg})
 	if o.NoCompress {
 		so = append(so, vanguard.WithNoTargetCompression())
 	}
@@ -99,6 +106,7 @@ type Client struct {
 	NoVersion   bool      `json:"no_version,omitempty"`    // connect GET: omit connect=v1 ... (only robustness)
 	GetBase64   bool      `json:"get_base64,omitempty"`    // connect GET: base64 even for text codecs
 	GetPadded   bool      `json:"get_padded,omitempty"`
+	BareContentType  bool `json:"bare_content_type,omitempty"` // gRPC / gRPC-Web with the proto codec: "application/grpc[-web]" without "+proto"
 	GetVersionHeader bool `json:"get_version_header,omitempty"` // connect GET: also send Connect-Protocol-Version: 1
 	Fault       *Fault    `json:"fault,omitempty"`
 	// raw overrides (robustness / pass-through scenarios)
@@ -207,7 +215,9 @@ func serviceOptions(cfg Config) []vanguard.ServiceOption {
 	if cfg.Codecs != nil {
 		so = append(so, vanguard.WithTargetCodecs(cfg.Codecs...))
 	}
-	if cfg.Compressions != nil {
+	// (the flag only stands while the list still states the default; a check that edits the list afterwards
+	// gets an explicit option)
+	if cfg.Compressions != nil && !(cfg.DefaultCompression && len(cfg.Compressions) == 1 && cfg.Compressions[0] == CompGzip) {
 		so = append(so, vanguard.WithTargetCompression(cfg.Compressions...))
 	}
 	if cfg.MaxMsg != 0 {
